@@ -126,7 +126,10 @@ def verify_unit(unit, timeout_ms=10000):
                 r = check_canary(o)
                 out.setdefault("canaries", []).append({"id": o.oid, "status": r["status"], "time": round(r["time"], 3)})
                 continue
-            r = check_with_retry(o, timeout_ms)
+            if o.extra.get("forced"):
+                r = {"status": o.extra["forced"], "time": 0.0, "solver": "none", "model": None, "reason": o.text}
+            else:
+                r = check_with_retry(o, timeout_ms)
             rec = {
                 "id": o.oid,
                 "kind": o.kind,
